@@ -47,7 +47,11 @@ type histStart struct {
 	isNil      bool
 	tokens     map[string]string
 	panicOK    bool // zero struct literals: a panicking query is a result like any other, not a violation
+	companion  bool // made right after ANOTHER decoder's failed Decode; that decoder is kept (histCompanions)
 }
+
+// histCompanions: live object -> the decoder whose Decode failed just before the live object was made
+var histCompanions sync.Map
 
 type histOp struct {
 	name string
@@ -146,6 +150,30 @@ func histStarts(thorough bool) []histStart {
 			zero("v3 &Temporal{} (nil embedded base)", 1, func() any { return &v3.Temporal{} })
 			zero("v3 &Environmental{} (nil embedded temporal)", 2, func() any { return &v3.Environmental{} })
 			zero("v3 &Environmental{Temporal: &Temporal{}}", 2, func() any { return &v3.Environmental{Temporal: &v3.Temporal{}} })
+		}
+		// an object decoded right after ANOTHER decoder's Decode failed; the failed decoder is kept and
+		// may retry later (round 5, C10-A-r5: the name tables of a failed receiver go to a free list
+		// that the next constructor draws from, and a retry releases them a second time)
+		for level := 0; level < 3; level++ {
+			level := level
+			good := seeds(ver)[0]
+			if !lang.Classify(ver, level, good).Accept {
+				continue
+			}
+			for _, bad := range []string{"CVSS:3.1/AV:N/AV:N", "AV:N/AV:N", "CVSS:3.1/AV:Q", "garbage"} {
+				bad := bad
+				st = append(st, histStart{id: fmt.Sprintf("v%d %s decoded %s right after another decoder failed on %q (that decoder is kept)", ver, spec.LevelNames[level], good, bad), ver: ver, level: level,
+					make: func() any {
+						x := lib.New(ver, level)
+						lib.Decode(x, bad)
+						y, _, _ := lib.DecodeNew(ver, level, good)
+						if y == nil {
+							return lib.Nil(ver, level)
+						}
+						histCompanions.Store(y, x)
+						return y
+					}, decoded: true, tokens: lang.Classify(ver, level, good).Tokens, companion: true})
+			}
 		}
 		vecs := seeds(ver)
 		if ver == 3 {
@@ -359,6 +387,25 @@ func histOps(thorough bool) []histOp {
 			}()
 		}})
 	}
+	ops = append(ops, histOp{name: "the decoder that failed before this object was made retries a Decode", kind: 'd',
+		ok: func(s *histStart) bool { return s.companion },
+		run: func(o any) string {
+			x, ok := histCompanions.Load(o)
+			if !ok {
+				return "no companion"
+			}
+			_, err, pan := lib.Decode(x, "CVSS:3.1/AV:N/AC:L/AC:L")
+			return fmt.Sprintf("retry: %s panic=%q", lib.Class(err), pan)
+		}})
+	ops = append(ops, histOp{name: "fresh objects of every type are constructed (and dropped)", kind: 'd', ok: always, run: func(any) string {
+		for _, ver := range []int{3, 2} {
+			for level := 0; level < 3; level++ {
+				lib.New(ver, level)
+				lib.New(ver, level)
+			}
+		}
+		return ""
+	}})
 	// mutations of the version label and of the embedded pointers
 	for _, vv := range []struct {
 		n string
@@ -774,7 +821,9 @@ func init() {
 // revisitDistances: long single-goroutine histories of fresh-object decodes.  For every distance
 // d = 1..maxD: decode X, decode d further vectors never seen before (the last one is Y), decode X
 // again, decode Y again; the two repeated decodes must give what the first ones gave.  Every
-// vector is new to the process when first decoded, so whatever the library remembers between
+// vector is new to the process when first decoded (and the object decoded from X is kept and
+// queried again after the d further constructions: round 5, C13-A-r5, an instance allocator that
+// re-issues a chunk its callers still hold), so whatever the library remembers between
 // decodes (a bounded cache, a ring, an index) is driven through every fill level and every
 // revisit distance up to maxD — 272 in the quick tier (rings of up to 256 entries wrap), 1,100 in
 // the thorough tier (round 5, C05-A-r5: a 256-entry decode cache whose index goes stale when a
@@ -793,6 +842,7 @@ func revisitDistances(r *ev.Run, thorough bool) {
 				total *= uint64(len(m.Codes))
 			}
 			next := uint64(0)
+			var lastObj any
 			fresh := func() (string, string) {
 				i := (next*1000003 + 12345) % total
 				next++
@@ -809,6 +859,7 @@ func revisitDistances(r *ev.Run, thorough bool) {
 				s := canonicalWritten(ver, level, label, tok)
 				o, err, pan := lib.DecodeNew(ver, level, s)
 				n++
+				lastObj = o
 				if o == nil {
 					return s, fmt.Sprintf("rejected %s panic=%q", lib.Class(err), pan)
 				}
@@ -835,9 +886,17 @@ func revisitDistances(r *ev.Run, thorough bool) {
 					break // the domain of this level is used up: every vector was new so far
 				}
 				x, xo := fresh()
+				xobj := lastObj // the object itself is kept, too
 				var y, yo string
 				for k := 0; k < d; k++ {
 					y, yo = fresh()
+				}
+				if xobj != nil {
+					n++
+					if got := safeRun(func() string { return observables(xobj) }); got != xo {
+						r.Violate(ev.Violation{Kind: "held-object-changes", Case: map[string]any{"cvss": ver, "decoder": spec.LevelNames[level], "vector": x,
+							"history": fmt.Sprintf("decode X and keep the object, construct and decode %d further objects, query X again", d)}, Observed: got, Expected: xo + "  (what X answered right after its decode)"})
+					}
 				}
 				again(x, xo, d, "X")
 				again(y, yo, d, "Y")
